@@ -113,7 +113,7 @@ def task(W, payload):
         for t in want_times:
             if ep.datetime_to_number(ep.number_to_datetime(t)) != t:
                 fail(out, "Epoch round trip number -> datetime -> number changes the value", "c12", payload, t=t)
-    except Exception as e:
+    except BaseException as e:
         fail(out, "datetime-specified model raised", "c12", payload, err=str(e)[:200])
     if payload["index"] == 0:
         out["sample"] = {"program": prog["build"][:6], "compartments": names[:8], "times": want_times}
